@@ -63,11 +63,11 @@ def run_worker(module, cond, tier, shard, nshards, twin, budget, tmpdir):
     return res
 
 
-def plain_replay(requests, tmpdir, tag="replay"):
+def plain_replay(requests, tmpdir, tag="replay", **extra_env):
     req = os.path.join(tmpdir, tag + "-req.json")
     resp = os.path.join(tmpdir, tag + "-resp.json")
     json.dump({"requests": requests}, open(req, "w"))
-    p = subprocess.run([PLAIN, "-m", "vf.replay", req, resp], env=env_for(VF_TWIN="0"), cwd=ROOT,
+    p = subprocess.run([PLAIN, "-m", "vf.replay", req, resp], env=env_for(VF_TWIN="0", **extra_env), cwd=ROOT,
                        capture_output=True, text=True, timeout=3600)
     if not os.path.exists(resp):
         raise RuntimeError("replay process failed: rc=%s\n%s\n%s" % (p.returncode, p.stdout[-2000:], p.stderr[-3000:]))
@@ -259,7 +259,7 @@ def main():
             evid_conditions.append(entry)
         # ---- 5. known findings: replay the listed witnesses (no exclusion applies on replay)
         kreqs = [dict(module=k.get("module", module), condition=k["condition"], args=k["args"]) for k in known]
-        kres = plain_replay(kreqs, td, "known") if kreqs else []
+        kres = plain_replay(kreqs, td, "known", VF_NO_EXCLUSIONS="1") if kreqs else []
         known_out = []
         for k, r in zip(known, kres):
             still = not r.get("ok")
@@ -336,7 +336,10 @@ def main():
         tot = sum((s.get("paths") or 0) for s in e["shards"])
         print("%-28s %-22s paths=%-6d reached=%-6d twin=%s" % (e["condition"], e["verdict"], tot, e.get("reached_paths_total") or 0, e.get("twin_verdict")))
     for r in named:
-        print("%-28s named-case %s %s" % (r["condition"], "ok" if r.get("ok") else "FAILS", json.dumps(r["args"])[:80]))
+        if not r.get("ok"):
+            print("%-28s named-case FAILS %s" % (r["condition"], json.dumps(r["args"])[:120]))
+    if named:
+        print("named concrete cases: %d run, %d ok" % (len(named), sum(1 for r in named if r.get("ok"))))
     for l in known_lines:
         print(l)
     for x in inconclusive:
